@@ -114,9 +114,16 @@ def main(chk):
   if not chk.thorough:
     import random
     foc_b = random.Random(chk.seed).sample(foc_b, min(len(foc_b), 120))
+  blk = tlc.require_ok(tlc.run('LinenScope', 'LinenScope_lift_block.cfg', workers=1, timeout=3000), 'LinenScope lifted block focused')
+  chk.add_tlc(blk, 'LinenScope exhaustive: auto-named children inside / after a function-style lifted block')
+  blk_b = [b for b in blk['exports'] if any(op['k'] == 'G' for op in b['prog']) and sum(op['k'] == 'E' for op in b['prog']) >= 2 and
+           sum(op['k'] == 'P' for op in b['prog']) >= 2]
+  if not chk.thorough:
+    import random
+    blk_b = random.Random(chk.seed + 1).sample(blk_b, min(len(blk_b), 150))
   seen = set()
   n = nwrap = 0
-  for idx, beh in enumerate(sim['exports'] + foc_b):
+  for idx, beh in enumerate(sim['exports'] + foc_b + blk_b):
     sig = json.dumps(beh, sort_keys=True)
     if sig in seen:
       continue
